@@ -81,7 +81,9 @@ def main(tier, seed):
                 if j not in ends:
                     rep.violation("impl-vs-spec", {"what": "optimize did not return (process ended, rc=%s, or time limit)" % rc, "case": c, "match_key": "opt " + c})
                     break
-                if ends[j] != m:
+                if unjudged(m):
+                    rep.count("skipped-resource-limit")
+                elif ends[j] != m:
                     rep.violation("correspondence", {"what": "optimize result differs from the model", "case": c, "impl": ends[j][:800], "model": m[:800]})
                 if " res=-" in ends[j]: kinds["fully"] += 1
                 else: kinds["bailed"] += 1
